@@ -1,23 +1,37 @@
 package daemon
 
 import (
+	"context"
 	"encoding/json"
 	"testing"
 
 	"github.com/aliyun/alibaba-cloud-sdk-go/services/ecs"
+	corev1 "k8s.io/api/core/v1"
+	metav1 "k8s.io/apimachinery/pkg/apis/meta/v1"
 	"pgregory.net/rapid"
 
-	"github.com/AliyunContainerService/terway/pkg/aliyun/client"
+	"github.com/AliyunContainerService/terway/pkg/aliyun/instance"
+	"github.com/AliyunContainerService/terway/pkg/k8s"
 	"github.com/AliyunContainerService/terway/pkg/utils/nodecap"
+	terwayTypes "github.com/AliyunContainerService/terway/types"
 	"github.com/AliyunContainerService/terway/types/daemon"
 	"github.com/AliyunContainerService/terway/zz_verif/vt"
 )
 
-// C19 (daemon part): pool sizing and feature gating of the node daemon, driven the way
-// NetworkServiceBuilder drives them: limits from the node annotation
-// (initInstanceLimit -> GetLimitFromAnno), configuration decoded from eni_conf JSON,
-// Populate + Validate (LoadDynamicConfig), checkInstance, then getPoolConfig on the
-// same (mutated) configuration (setupENIManager).
+// C19 (daemon part): pool sizing and feature gating of the legacy (non-CRD) node daemon,
+// driven through the real NetworkServiceBuilder steps in the order newLegacyService
+// runs them:
+//
+//	NewNetworkServiceBuilder.WithDaemonMode(ENIMultiIP).InitService()
+//	configuration decoded from eni_conf JSON, Populate + Validate   (LoadDynamicConfig)
+//	the two node-label statements of InitK8S, replayed on a stub k8s.Kubernetes whose
+//	  Node() carries the drawn labels (exclusive-ENI mode) and the instance-type
+//	  annotation (k8s.NewK8S itself needs an API server)
+//	b.initInstanceLimit()   (real ECS limit provider, annotation path; real checkInstance)
+//	getPoolConfig(b.config, b.daemonMode, b.limit)                  (setupENIManager)
+//
+// so that the mode each step sees is the one the daemon hands it, not one the harness
+// chose.
 //
 // Oracle, from the raw instance-type vector (slots = EniQuantity-1):
 //
@@ -26,7 +40,9 @@ import (
 //	                      MaxIPPerENI <= v4;  MaxMemberENI <= member limit;
 //	                      ERdmaCapacity <= min(eri, slots)*v4
 //	ratio <= 1, shift <= 0: every one of these outputs <= its default-ratio value
-//	features:  IPv6 off when v6 = 0 or v6 < v4 (a multi-IP pod needs one of each);
+//	features:  IPv6 off when v6 = 0, and whenever the pool that is actually computed
+//	           puts more addresses on an interface than the type has IPv6 addresses
+//	           (MaxIPPerENI > v6: every pod needs one of each family);
 //	           trunking off when the member limit is 0;  ERDMA off (and capacity 0)
 //	           when the type has no ERI
 type c19PoolScenario struct {
@@ -51,8 +67,8 @@ type c19PoolScenario struct {
 	ERDMA       bool   `json:"enable_erdma"`
 	IPAMCRD     bool   `json:"ipam_crd"`
 
-	OSERDMA bool `json:"os_erdma"`  // node capability "erdma" present
-	ENIOnly bool `json:"mode_only"` // daemonMode ENIOnly instead of ENIMultiIP
+	OSERDMA   bool   `json:"os_erdma"`        // node capability "erdma" present
+	Exclusive string `json:"exclusive_label"` // exclusive-ENI label on the k8s node ("" = absent)
 }
 
 func c19GenPool(t *rapid.T) c19PoolScenario {
@@ -112,13 +128,17 @@ func c19GenPool(t *rapid.T) c19PoolScenario {
 	s.ERDMA = rapid.Bool().Draw(t, "erdma")
 	s.IPAMCRD = rapid.IntRange(0, 4).Draw(t, "crd") == 4
 	s.OSERDMA = rapid.IntRange(0, 3).Draw(t, "osERDMA") > 0
-	s.ENIOnly = rapid.IntRange(0, 9).Draw(t, "eniOnly") == 9
+	s.Exclusive = rapid.SampledFrom([]string{"", "", "default", "eniOnly", "eniOnly", "ENIONLY"}).Draw(t, "exclusive")
 	return s
 }
 
-func (s c19PoolScenario) limits(c *vt.Ctx) *client.Limits {
+const c19TypeID = "ecs.c19.large"
+
+// node is the k8s node the daemon runs on: exclusive-ENI label as drawn, instance-type
+// description in the annotation initInstanceLimit reads.
+func (s c19PoolScenario) node(c *vt.Ctx) *corev1.Node {
 	it := ecs.InstanceType{
-		InstanceTypeId:              "ecs.c19.large",
+		InstanceTypeId:              c19TypeID,
 		EniQuantity:                 s.EniQuantity,
 		EniTotalQuantity:            s.EniTotalQuantity,
 		EniPrivateIpAddressQuantity: s.V4,
@@ -130,12 +150,35 @@ func (s c19PoolScenario) limits(c *vt.Ctx) *client.Limits {
 	if err != nil {
 		c.Fatalf("marshal instance type: %v", err)
 	}
-	l, err := client.LimitProviders["ecs"].GetLimitFromAnno(map[string]string{"alibabacloud.com/instance-type-info": string(raw)})
-	if err != nil || l == nil {
-		c.Fatalf("GetLimitFromAnno(%s) = %v, %v", raw, l, err)
+	n := &corev1.Node{ObjectMeta: metav1.ObjectMeta{
+		Name:        "node-c19",
+		Labels:      map[string]string{},
+		Annotations: map[string]string{"alibabacloud.com/instance-type-info": string(raw)},
+	}}
+	if s.Exclusive != "" {
+		n.Labels[terwayTypes.ExclusiveENIModeLabel] = s.Exclusive
 	}
-	return l
+	return n
 }
+
+// c19K8s answers Node() only; any other call of the k8s.Kubernetes interface would be a
+// harness bug (nil embedded interface -> panic -> reported).
+type c19K8s struct {
+	k8s.Kubernetes
+	node *corev1.Node
+}
+
+func (k *c19K8s) Node() *corev1.Node { return k.node }
+
+// c19Meta is the instance metadata service.
+type c19Meta struct{}
+
+func (c19Meta) GetRegionID() (string, error)     { return "cn-hangzhou", nil }
+func (c19Meta) GetZoneID() (string, error)       { return "cn-hangzhou-k", nil }
+func (c19Meta) GetVSwitchID() (string, error)    { return "vsw-c19", nil }
+func (c19Meta) GetPrimaryMAC() (string, error)   { return "00:16:3e:00:00:19", nil }
+func (c19Meta) GetInstanceID() (string, error)   { return "i-c19", nil }
+func (c19Meta) GetInstanceType() (string, error) { return c19TypeID, nil }
 
 // config decodes the eni_conf the scenario describes exactly as the daemon does.
 // defaultRatio forces eni_cap_ratio / eni_cap_shift to their defaults (keys absent).
@@ -185,19 +228,38 @@ type c19PoolOut struct {
 }
 
 func (s c19PoolScenario) compute(c *vt.Ctx, defaultRatio bool) c19PoolOut {
-	limit := s.limits(c)
-	cfg := s.config(c, defaultRatio)
-	mode := daemon.ModeENIMultiIP
-	if s.ENIOnly {
-		mode = daemon.ModeENIOnly
+	b := NewNetworkServiceBuilder(context.Background()).
+		WithDaemonMode(daemon.ModeENIMultiIP).
+		InitService()
+	if b.err != nil {
+		c.Fatalf("InitService: %v", b.err)
 	}
-	out := c19PoolOut{}
-	out.V4On, out.V6On = checkInstance(limit, mode, cfg)
-	pc, err := getPoolConfig(cfg, mode, limit)
+	// LoadDynamicConfig
+	b.config = s.config(c, defaultRatio)
+
+	// InitK8S: its statements about the node, verbatim
+	b.service.k8s = &c19K8s{node: s.node(c)}
+	if terwayTypes.NodeExclusiveENIMode(b.service.k8s.Node().Labels) == terwayTypes.ExclusiveENIOnly {
+		b.service.daemonMode = daemon.ModeENIOnly
+	}
+
+	// PostInitForLegacyMode: initInstanceLimit, then the pool config of setupENIManager
+	if err := b.initInstanceLimit(); err != nil {
+		c.Fatalf("initInstanceLimit: %v", err)
+	}
+	if b.limit == nil || b.limit.InstanceTypeID != c19TypeID {
+		c.Fatalf("initInstanceLimit left limits %+v", b.limit)
+	}
+	pc, err := getPoolConfig(b.config, b.daemonMode, b.limit)
 	if err != nil || pc == nil {
 		c.Fatalf("getPoolConfig = %v, %v", pc, err)
 	}
-	out.Trunking, out.ERDMA = cfg.EnableENITrunking, cfg.EnableERDMA
+	pc.EnableIPv4 = b.service.enableIPv4
+	pc.EnableIPv6 = b.service.enableIPv6
+
+	out := c19PoolOut{}
+	out.V4On, out.V6On = b.service.enableIPv4, b.service.enableIPv6
+	out.Trunking, out.ERDMA = b.config.EnableENITrunking, b.config.EnableERDMA
 	out.Pool = *pc
 	return out
 }
@@ -210,6 +272,8 @@ func c19RunPool(c *vt.Ctx, s c19PoolScenario) {
 		nodecap.SetNodeCapabilities(nodecap.NodeCapabilityERDMA, "")
 	}
 	defer nodecap.SetNodeCapabilities(nodecap.NodeCapabilityERDMA, "")
+	// package-level state: the instance metadata client
+	instance.Init(c19Meta{})
 
 	if s.IPStack == "ipv6" {
 		// LoadDynamicConfig refuses this stack (Validate); checkInstance is still
@@ -292,8 +356,12 @@ func c19RunPool(c *vt.Ctx, s c19PoolScenario) {
 	if s.IPAMCRD {
 		c.Label("ipam:crd")
 	}
-	if s.ENIOnly {
-		c.Label("mode:eniOnly")
+	exclusive := terwayTypes.NodeExclusiveENIMode(map[string]string{terwayTypes.ExclusiveENIModeLabel: s.Exclusive}) == terwayTypes.ExclusiveENIOnly
+	if exclusive {
+		c.Label("node:exclusive-eni")
+		if wantV6 && s.V6 > 0 && s.V6 != s.V4 {
+			c.Label("node:exclusive-eni+ipv6-unequal")
+		}
 	}
 	if defaultRatio {
 		c.Label("ratio:default")
@@ -360,8 +428,16 @@ func c19RunPool(c *vt.Ctx, s c19PoolScenario) {
 		if o.V6On && s.V6 == 0 {
 			c.Fatalf("IPv6 enabled (stack %q) on an instance type without IPv6 addresses", s.IPStack)
 		}
-		if o.V6On && !s.ENIOnly && s.V6 < s.V4 {
-			c.Fatalf("IPv6 enabled (stack %q) in multi-IP mode with %d IPv6 < %d IPv4 addresses per interface", s.IPStack, s.V6, s.V4)
+		// for the pool that is actually sized (whatever mode each step was handed):
+		// every interface is advertised with MaxIPPerENI pod addresses, capacity with
+		// MaxENI x MaxIPPerENI; with IPv6 on, each of them needs an IPv6 address too
+		if o.V6On && o.Pool.MaxIPPerENI > s.V6 {
+			c.Fatalf("IPv6 enabled (stack %q, exclusive-ENI label %q) while the pool puts %d addresses on an interface that has %d IPv6 addresses (capacity %d, deliverable %d x %d)",
+				s.IPStack, s.Exclusive, o.Pool.MaxIPPerENI, s.V6, o.Pool.Capacity, o.Pool.MaxENI, s.V6)
+		}
+		if o.V6On && o.Pool.Capacity > 0 && o.Pool.MaxENI >= 0 && o.Pool.Capacity > o.Pool.MaxENI*s.V6 {
+			c.Fatalf("IPv6 enabled (stack %q, exclusive-ENI label %q): capacity %d exceeds %d interfaces x %d IPv6 addresses",
+				s.IPStack, s.Exclusive, o.Pool.Capacity, o.Pool.MaxENI, s.V6)
 		}
 		if o.Trunking && memberRef == 0 {
 			c.Fatalf("trunking stays enabled on an instance type with member limit 0 (trunk supported %v, total %d, attachable %d)", s.Trunk, s.EniTotalQuantity, s.EniQuantity)
